@@ -233,8 +233,8 @@ def _one_rewrite_per_line_rule(ctx, res) -> None:
     the handler) whose true edge only raises a rope error, and the line is added to that record."""
     idx = ctx.idx
     f = idx.need_func("rope.refactor.inline._InlineFunctionCallsForModuleHandle.occurred_outside_skip")
-    from . import common as _common
-    fnode = _common.inlined(idx, f)  # (the rewriting part may live in a private step of the handler)
+    from . import common
+    fnode = common.inlined(idx, f)  # (the rewriting part may live in a private step of the handler)
     cfg = CFG(fnode)
     adds = [nd for nd in cfg.nodes if nd.kind == "stmt" and nd.ast is not None and any(call_name(c) == "add_change" for c in calls_in(nd.ast))]
     if not adds:
@@ -248,8 +248,27 @@ def _one_rewrite_per_line_rule(ctx, res) -> None:
                 if lab == "true" and cfg.exit.id not in cfg.reachable(b):
                     refusing = t
     ok = refusing is not None and all(nd.id in cfg.reachable(refusing.id) for nd in adds)
+    # the record is kept per LOGICAL line: the key is the line whose start the rewrite begins at (`get_line_start(<key>)` feeds the
+    # first argument of the whole-line add_change), not the physical line the call happens to stand on
+    wrong_key = None
+    if ok:
+        key = refusing.ast.left
+        starts = set()
+        for nd in adds:
+            for c in calls_in(nd.ast):
+                if call_name(c) == "add_change" and c.args:
+                    a0 = common.__dict__["_subst_single_locals"](fnode, c.args[0])
+                    for g in ast.walk(a0):
+                        if isinstance(g, ast.Call) and call_name(g) == "get_line_start" and g.args:
+                            starts.add(norm(g.args[0]))
+        if starts and norm(key) not in starts:
+            wrong_key = (ast.unparse(key), sorted(starts))
+            ok = False
     res.add("R04.8", "occurred_outside_skip|one-rewrite-per-logical-line", ok, f"{f.unit.rel}:{adds[0].lineno}",
             "a second call in a logical line that was already rewritten is refused" if ok else
+            (f"the record of rewritten lines is keyed by `{wrong_key[0]}`, but a rewrite replaces the logical line that starts at another line (the one handed to "
+             "get_line_start): two calls on different physical lines of one statement -- `r = (f(a) +\\n f(b))` -- are both inlined, each replacing the whole statement "
+             "with a copy that still holds the other call") if wrong_key else
             "every call of the inlined function replaces its whole logical line with text built from the original line, and nothing records which lines were "
             "already rewritten: for `print(f(1) + f(2))` the statement is emitted twice, each copy still calling f -- with remove=True the definition is gone "
             "(NameError), without it the statement runs twice", function=f.qualname)
